@@ -192,7 +192,10 @@ def _draw_batch(ctx, tier, knob_on):
         psize = 1 + ch.draw(max(1, n), "partition_size")
     else:
         # 1001 / 1203: more than ten partitions (two-digit partition indices)
-        n = (100, 99, 101, 199, 200, 201, 250, 300, 400, 301, 1001, 1203)[ch.draw(12, "N_literal")]
+        sizes = (100, 99, 101, 199, 200, 201, 250, 300, 400, 301, 1001, 1203)
+        if tier == "thorough":
+            sizes = sizes + (4100,)  # beyond 4096: a common size for "clear the cache when full"
+        n = sizes[ch.draw(len(sizes), "N_literal")]
         start = ch.draw(len(pool), "event_start")
         stride = 1 + ch.draw(7, "event_stride")
         idx = [(start + k * stride) % len(pool) for k in range(n)]
@@ -346,9 +349,14 @@ def scn_faultfree(ctx):
     kind = CLOUD_KINDS[ch.draw(len(CLOUD_KINDS), "cloud")]
     obj = CphotAng(det_alt)
     nb = 1 + ch.draw(2, "second_batch")
+    held = None
     for b in range(nb):
         tag = f"b{b}"
         res, exc, fired, idx, world, _ = _one_batch(ctx, tier, det_alt, obj, kind, False, tag)
+        if held is not None and [np.asarray(a).tobytes() for a in held[0]] != held[1]:
+            raise Violation("c10.result_overwritten", "the arrays returned by the first batch call changed while the caller held them (overwritten by the second call on the same object)", sig="CphotAng.__call__:aliasing")
+        if exc is None and res is not None:
+            held = (res, [np.asarray(a).tobytes() for a in res])
         if exc is not None:
             raise Violation(
                 "c10.raised_without_fault",
